@@ -54,16 +54,17 @@ def build_harness(run, san=False):
         return getattr(run, attr)
     sf = ["-fsanitize=address,undefined", "-fno-sanitize-recover=all"] if san else []
     suffix = "_san" if san else ""
-    ts = cbuild.firmware_obj(run, "layer1/tdma_sched.c", "g_tdma_sched" + suffix, extra_flags=FW_FLAGS + sf)
-    sg = cbuild.firmware_obj(run, "layer1/sched_gsmtime.c", "g_sched_gsmtime" + suffix,
-                             extra_flags=FW_FLAGS + sf + ["-Dtdma_schedule_set=c08g_tdma_schedule_set"])
+    from props import C08 as c08
+    ts = cbuild.firmware_objs_for(run, "layer1/tdma_sched.c", c08.TDMA_FUNCS, "g_tdma_sched" + suffix, extra_flags=FW_FLAGS + sf)
+    sg = cbuild.firmware_objs_for(run, "layer1/sched_gsmtime.c", ["sched_gsmtime", "sched_gsmtime_execute", "sched_gsmtime_init", "sched_gsmtime_reset"],
+                                  "g_sched_gsmtime" + suffix, extra_flags=FW_FLAGS + sf + ["-Dtdma_schedule_set=c08g_tdma_schedule_set"])
     h = cbuild.obj(run, os.path.join(vf.ROOT, "harness/c/c08_gsmtime_harness.c"), "c08_gsmtime_harness" + suffix,
                    flags=["-DHOST_BUILD"], includes=[cbuild.SHIM, cbuild.LIBOSMO_INC, cbuild.TOP_INC],
                    idirafter=[cbuild.FW_INC])
     if san:
-        exe = cbuild.link(run, [h, sg, ts], "c08_gsmtime_harness_san.bin", flags=sf)
+        exe = cbuild.link(run, [h] + sg + ts, "c08_gsmtime_harness_san.bin", flags=sf)
     else:
-        exe = cbuild.link(run, [h, sg, ts], "c08_gsmtime_harness.bin", ignore_unresolved=True)
+        exe = cbuild.link(run, [h] + sg + ts, "c08_gsmtime_harness.bin", ignore_unresolved=True)
     setattr(run, attr, exe)
     return exe
 
